@@ -918,6 +918,7 @@ def c19(tier):
                   "C19-mc", coverage=False, cont=False, timeout=3000, extra=["-maxSetSize", "2000000"])
     if mc.errors or mc.distinct == 0:
         raise core.ToolError("MC_FrontEnd failed: %s" % mc.errors[:3])
+    mcv = mc_run("MC_FrontEndValue", "MC_FrontEndValue" if q else "MC_FrontEndValue_full", "C19-mc-value", timeout=3000)
     inputs = frontend_inputs(tier)
     outs = run_records(wd, "run_frontend", inputs, ["std"], name="frontend")["std"]
     if any(o["kind"] == "unextractable" for r in outs for o in r["outs"]):
@@ -939,7 +940,8 @@ def c19(tier):
     tags = collections.Counter(r["tag"] for r in inputs)
     ncopies = len(recs[0]["outs"]) // 2
     cov = {
-        "states": res.distinct + mc.distinct, "transitions": res.generated + mc.generated,
+        "states": res.distinct + mc.distinct + mcv.distinct, "transitions": res.generated + mc.generated + mcv.generated,
+        "mc_frontend_plus_pipeline_strings": mcv.distinct // 2,
         "traces_validated_against_impl": len(recs) * ncopies * 2, "evaluations": len(recs) * ncopies * 2,
         "distinct_nontrivial": len(recs),
         "rule": "MC_FrontEnd: scanner state machine = declarative longest-prefix definition on all strings up to length 4 (quick) / 5 "
